@@ -236,22 +236,39 @@ def check(facts):
                  and "Iterator" in (t.get("callee") or "")]
         skipping = [t for bb, t in calls if (t.get("callee") or "").split("::")[-1] in ("skip_while", "skip", "take_while", "step_by", "rev")]
         filt = [t for bb, t in calls if (t.get("callee") or "").endswith("Iterator::filter")]
-        eq_in_closure = False
+        eq_in_closure = ne_in_closure = False
         for cl in [n for n in facts.body_names() if n.startswith(ngf + "::{closure")]:
             cb = facts.body(cl)
             for _, tt in cb.iter_calls():
                 if (tt.get("callee") or "").endswith("PartialEq::eq"):
                     eq_in_closure = True
                 if (tt.get("callee") or "").endswith("PartialEq::ne"):
-                    skipping.append(tt)
-        # loop form: an `==` on the name guarding the return is equally fine
-        loop_form = any((t.get("callee") or "").endswith("PartialEq::eq") for bb, t in calls)
+                    ne_in_closure = True
+        # loop form: the capture that is returned is picked on the "names are equal" edge of a comparison
+        dom = b.dom()
+        guarded_pick = False
+        picks_l = [bi for bi, i, st in b.iter_stmts() if st["k"] == "assign" and st["pl"]["l"] == 0 and not st["pl"]["p"]
+                   and st["rv"]["k"] == "agg" and str(st["rv"].get("variant")) == "Some"]
+        for bb, t in calls:
+            last = (t.get("callee") or "").split("::")[-1]
+            if last not in ("eq", "ne") or "PartialEq" not in (t.get("callee") or ""):
+                continue
+            sw = b.blocks[t["t"]]["t"] if t.get("t") is not None else None
+            if not sw or sw["k"] != "switch":
+                continue
+            true_edge = sw["otherwise"]
+            false_edge = [tg for v, tg in sw["targets"] if v == 0]
+            equal_edge = true_edge if last == "eq" else (false_edge[0] if false_edge else None)
+            if equal_edge is not None and picks_l and all(equal_edge == pb or equal_edge in dom[pb] for pb in picks_l):
+                guarded_pick = True
         if skipping:
             r.fail(key, "named_group positions itself with %s instead of filtering by `name ==`: after the first group with that name it can "
                         "return the capture of a later group with another name (a non-participating named group followed by a participating "
                         "one)" % sorted({(t.get("callee") or "").split("::")[-1] for t in skipping}), facts.loc(ngf))
-        elif (filt and eq_in_closure and picks) or loop_form:
+        elif filt and eq_in_closure and not ne_in_closure and picks:
             r.ok(key, "filter(name == ..) before the capture is picked")
+        elif not filt and guarded_pick:
+            r.ok(key, "the capture is cloned only on the names-equal edge")
         else:
             r.fail(key, "no equality test of the group name guards the capture named_group returns", facts.loc(ngf))
 
